@@ -90,9 +90,22 @@ pub struct Shared {
     pub cv: Condvar,
 }
 
+/// number of watchdog time-outs in this process so far
+static HANGS: std::sync::atomic::AtomicUsize = std::sync::atomic::AtomicUsize::new(0);
+
+/// "never": RT_WATCHDOG_MS (default 10 s) for the first two time-outs of a process; after that the process is known
+/// to run against a tree on which things hang and RT_WATCHDOG_SHORT_MS (default 1.5 s) keeps the run short
 fn watchdog() -> Duration {
-    let ms = std::env::var("RT_WATCHDOG_MS").ok().and_then(|s| s.parse().ok()).unwrap_or(10_000u64);
+    let get = |k: &str, d: u64| std::env::var(k).ok().and_then(|s| s.parse().ok()).unwrap_or(d);
+    let ms = if HANGS.load(std::sync::atomic::Ordering::Relaxed) >= 2 {
+        get("RT_WATCHDOG_SHORT_MS", 1_500).min(get("RT_WATCHDOG_MS", 10_000))
+    } else {
+        get("RT_WATCHDOG_MS", 10_000)
+    };
     Duration::from_millis(ms)
+}
+fn hung() {
+    HANGS.fetch_add(1, std::sync::atomic::Ordering::Relaxed);
 }
 
 fn record(sh: &Shared, k: usize, tid: usize) {
@@ -270,7 +283,6 @@ pub fn run_line(line: &str) -> String {
 fn run_case(userun: bool, seed: u64, ops: &[Op]) -> String {
     let mut rng = Rng::new(seed);
     let profile = seed % 4; // 0 tight, 1 fast, 2 mixed, 3 slow
-    let wd = watchdog();
     let sh = Arc::new(Shared::default());
     let side = start_system(userun);
     // Arbiter::new only needs a System registered on the calling thread
@@ -343,9 +355,9 @@ fn run_case(userun: bool, seed: u64, ops: &[Op]) -> String {
             }
             Op::WaitRun => {
                 if ret.is_none() {
-                    ret = side.ret_rx.recv_timeout(wd).ok();
+                    ret = side.ret_rx.recv_timeout(watchdog()).ok();
                 }
-                if ret.is_some() { 'r' } else { 'h' }
+                if ret.is_some() { 'r' } else { hung(); 'h' }
             }
             Op::Join(k) => match slots.get_mut(k) {
                 None => 'j',
@@ -356,13 +368,16 @@ fn run_case(userun: bool, seed: u64, ops: &[Op]) -> String {
                     thread::spawn(move || {
                         let _ = tx.send(arb.join().is_ok());
                     });
-                    match rx.recv_timeout(wd) {
+                    match rx.recv_timeout(watchdog()) {
                         Ok(true) => {
                             slot.joined = true;
                             'j'
                         }
                         Ok(false) => 'x',
-                        Err(_) => 'h',
+                        Err(_) => {
+                            hung();
+                            'h'
+                        }
                     }
                 }
             },
@@ -374,8 +389,13 @@ fn run_case(userun: bool, seed: u64, ops: &[Op]) -> String {
             }
             Op::Await { k, tid } => {
                 let g = sh.log.lock().unwrap();
-                let (_g, to) = sh.cv.wait_timeout_while(g, wd, |l| !l.iter().any(|e| e.k == k && e.tid == tid)).unwrap();
-                if to.timed_out() { 'h' } else { 's' }
+                let (_g, to) = sh.cv.wait_timeout_while(g, watchdog(), |l| !l.iter().any(|e| e.k == k && e.tid == tid)).unwrap();
+                if to.timed_out() {
+                    hung();
+                    'h'
+                } else {
+                    's'
+                }
             }
         };
         res.push(c);
@@ -390,7 +410,7 @@ fn run_case(userun: bool, seed: u64, ops: &[Op]) -> String {
     // ---- clean-up, not part of the observation ----
     if ret.is_none() {
         side.sys.stop_with_code(0);
-        let _ = side.ret_rx.recv_timeout(wd);
+        let _ = side.ret_rx.recv_timeout(Duration::from_millis(2000));
     }
     for slot in slots.iter_mut() {
         slot.handle.stop();
